@@ -303,3 +303,14 @@ Example C08_values_for_key_code_nonvacuous :
   = Ret (Ok [VMap [(s "id", VStr (s "7"))]]) /\
   fn_ValuesForKey (run_getSubKeyMap (fun x => Some x) gstate0) (run_hasKey gstate0) gstate0 [] (s "k") [s "a:b:c:d"] = Ret (Err EOther).
 Proof. split; vm_compute; reflexivity. Qed.
+
+(* ---- Map.ValueForKey (keyvalues.go), translated from the current sources and instantiated with the translated
+   ValuesForKey: the first value ValuesForKey returns, KeyNotExistError when there is none (GenProofs/PureG7.v) *)
+From Mxj Require Import GenProofs.PureG7.
+
+Theorem C08_value_for_key_code_is_model : forall pf st m key subkeys, g_fieldSep st <> [] ->
+  fn_ValueForKey (run_ValuesForKey pf st) st m key subkeys
+  = of_res (bind (values_for_key pf (g_fieldSep st) (VMap m) key subkeys)
+                 (fun vs => match vs with [] => Err EOther | v :: _ => Ok v end)).
+Proof. exact value_for_key_code_is_model. Qed.
+Print Assumptions C08_value_for_key_code_is_model.
